@@ -17,6 +17,8 @@ def generate(G):
 
     # ---- element-wise binary ops x broadcast class
     pairs_q = {"Add": ([2, 2], [2]), "Sub": ([2], [1, 2]), "Mul": ([2, 2], [1, 2]), "Div": ([2], [2, 1])}
+    # a lower-rank operand that also has a unit dimension of its own
+    ob("mul_2x2x2_2x1", "Mul", [L([2, 2, 2], "D2", tracked=False), L([2, 1], "D2")], "quick", 14, heavy=True)
     for op, (a, b) in pairs_q.items():
         db = "Pos" if op == "Div" else "D4"
         ob("%s_%s_%s" % (op.lower(), G.sname(a), G.sname(b)), op, [L(a), L(b, db)], "quick", 12,
@@ -107,6 +109,7 @@ def generate(G):
     mm("1x2x1_nn_lead2_right", 1, 2, 1, False, False, None, "thorough", lead_b=[2])
     mm("1x2x1_nn_lead1_2", 1, 2, 1, False, False, None, "thorough", lead_a=[1], lead_b=[2])
     mm("2x2x2_nt_c_only", 2, 2, 2, False, True, [2], "thorough", tracked=(False, False, True))
+    mm("2x1x2_nn_lead2_c2x1x2_c_only", 2, 1, 2, False, False, [2, 1, 2], "thorough", lead_a=[2], lead_b=[2], tracked=(False, False, True))
     mm("2x2x2_nt_b_only", 2, 2, 2, False, True, [2], "thorough", tracked=(False, True, False))
     for at in (False, True):
         for bt in (False, True):
